@@ -76,7 +76,7 @@ Definition grid_ops (b : Z) : list op :=
   flat_map (fun i => [DelInt i; SetInt i 99; SetInt i 199; SetInt i 200; Insert i 99; Insert i 200;
                       Pop (Some i); Imul i; Remove (10 + i); InsertX i 99; PopX i; ImulX i]) (zr (- b) b)
   ++ [Pop None; Append 5; Append 105; Append 200; Extend [5; 6]; Extend []; Extend [5; 200]; Iadd [5; 106];
-      Iadd []; ExtendN; SetSliceN (None, None, None); SetSliceN (Some 1, Some 3, None); SetSliceN (None, None, Some 2);
+      Iadd []; SortPos; ExtendN; SetSliceN (None, None, None); SetSliceN (Some 1, Some 3, None); SetSliceN (None, None, Some 2);
       SetSliceN (None, None, Some 0); ImulQ 1 2; ImulQ 5 2; ImulQ 2 1; ImulQ (-1) 2; Clear; Reverse; Sort 0 false; Sort 0 true; Sort 3 false; Sort 3 true; Sort 2 true]
   ++ flat_map (fun sl => DelSlice sl :: map (SetSlice sl) values) (slices b).
 
@@ -176,3 +176,46 @@ Definition law_copy (c : ccase) : list Z :=
       end
   | Raise _ => []
   end.
+
+(* ---------- re-entrant notifiers ---------- *)
+(* A notifier that keeps the list bounded: when it is told about added items and the list is longer than K it pops the
+   oldest item -- a second, nested operation on the list it is being notified about, with its own notification (to the
+   notifiers registered before it, here the recorder, in chronological order).  One top-level operation is then two
+   steps: the operation itself (contents as of its notification) and the reaction `pop(0)`. *)
+Definition reacts (K : Z) (ob : obs) : bool :=
+  match o_events ob with
+  | (_, _, added) :: _ => nonempty added && (K <? zlen (o_after ob))
+  | [] => false
+  end.
+
+Definition rcase := (target * vkind * Z * list Z * list (op * obs * option obs))%type.
+
+Definition at_step (i : Z) (shift : Z) (cs : list Z) : list Z := map (fun c => 100 * i + shift + c) cs.
+
+(* codes: 100*step + clause for the operation, + 20 for the reaction; 20 = a reaction was expected / not expected *)
+Fixpoint corr_react_hist (f : list Z -> op -> obs) (K : Z) (i : Z) (s : list Z) (h : list (op * obs * option obs)) : list Z :=
+  match h with
+  | [] => []
+  | (o, ob1, r) :: t =>
+      let m1 := f s o in
+      at_step i 0 (obs_diff m1 ob1)
+      ++ (match reacts K m1, r with
+          | true, Some ob2 => at_step i 20 (obs_diff (f (o_after ob1) (Pop (Some 0))) ob2)
+          | false, None => []
+          | _, _ => [100 * i + 20]
+          end)
+      ++ corr_react_hist f K (i + 1) (match r with Some ob2 => o_after ob2 | None => o_after ob1 end) t
+  end.
+Definition corr_react (c : rcase) : list Z :=
+  let '(t, vk, K, init, h) := c in corr_react_hist (step_of t vk) K 0 init h.
+
+Fixpoint law_react_hist (vld : Z -> option Z) (i : Z) (s : list Z) (h : list (op * obs * option obs)) : list Z :=
+  match h with
+  | [] => []
+  | (o, ob1, r) :: t =>
+      at_step i 0 (law_step vld s o ob1)
+      ++ (match r with Some ob2 => at_step i 20 (law_step vld (o_after ob1) (Pop (Some 0)) ob2) | None => [] end)
+      ++ law_react_hist vld (i + 1) (match r with Some ob2 => o_after ob2 | None => o_after ob1 end) t
+  end.
+Definition law_react (c : rcase) : list Z :=
+  let '(t, vk, K, init, h) := c in law_react_hist (vld_of vk) 0 init h.
